@@ -48,6 +48,13 @@ func (s *Server) loadAOF() (err error) {
 		log.Infof("AOF loaded %d commands: %.2fs, %.0f/s, %s",
 			count, float64(d)/float64(time.Second), ps, byteSpeed)
 	}()
+	// Zero padding at the very end of the file (a crash on a file system that
+	// had already allocated the blocks) is never part of a complete command,
+	// which ends in CRLF. Cut it off first, so that a torn command in front of
+	// it is found at the end of the file and repaired below.
+	if err := s.trimAOFTrailingZeros(fi.Size()); err != nil {
+		return err
+	}
 	var buf []byte
 	var args [][]byte
 	var packet [0xFFFF]byte
@@ -113,6 +120,35 @@ func (s *Server) loadAOF() (err error) {
 			buf = buf[:0]
 		}
 	}
+}
+
+// trimAOFTrailingZeros truncates the aof file (of the given size) at the end
+// of its last non-zero byte.
+func (s *Server) trimAOFTrailingZeros(size int64) error {
+	end := size
+	var block [4096]byte
+	for end > 0 {
+		n := int64(len(block))
+		if n > end {
+			n = end
+		}
+		if _, err := s.aof.ReadAt(block[:n], end-n); err != nil && err != io.EOF {
+			return err
+		}
+		i := n
+		for i > 0 && block[i-1] == 0 {
+			i--
+		}
+		end -= n - i
+		if i > 0 {
+			break
+		}
+	}
+	if end == size {
+		return nil
+	}
+	log.Warnf("Truncating %d zero bytes at the end of the AOF file\n", size-end)
+	return s.aof.Truncate(end)
 }
 
 func commandErrIsFatal(err error) bool {
